@@ -617,9 +617,16 @@ pub fn isotopic_variants<'a, C: Into<ChemicalComposition<'a>>>(
     charge_carrier: f64,
 ) -> PeakList {
     let composition = composition.into();
-    let npeaks = npeaks.into().num_peaks(&composition);
+    let spec: NumPeaksSpec = npeaks.into();
+    let npeaks = spec.num_peaks(&composition);
 
-    let dist = IsotopicDistribution::from_composition(composition, npeaks);
+    let mut dist = IsotopicDistribution::fill_from_composition(composition, npeaks);
+    if spec != NumPeaksSpec::Guess {
+        // `npeaks` is already the order of the last requested peak; re-reading it as a request
+        // would turn an order of 0 (exactly one peak) into "guess"
+        dist.update_order(npeaks);
+    }
+    dist.populate_constants();
     dist.isotopic_variants(charge, charge_carrier)
 }
 
@@ -716,8 +723,12 @@ impl<'lifespan, 'outer: 'lifespan> BafflingRecursiveIsotopicPatternGenerator<'li
         charge_carrier: f64,
     ) -> PeakList {
         let composition = composition.into();
-        let npeaks = npeaks.into().num_peaks(&composition);
+        let spec: NumPeaksSpec = npeaks.into();
+        let npeaks = spec.num_peaks(&composition);
         let mut dist = IsotopicDistribution::fill_from_composition(composition, npeaks);
+        if spec != NumPeaksSpec::Guess {
+            dist.update_order(npeaks);
+        }
         dist.populate_constants_from_cache(&mut self.parameter_cache);
         let peaks = dist.isotopic_variants(charge, charge_carrier);
         self.parameter_cache.receive_from(dist.constants);
